@@ -72,4 +72,12 @@ func init() {
 		Bounds:  map[string]string{"quick": "ciphertext 0..64 bytes with arbitrary post-decryption content; any algorithm / digest identifiers; inline or detached EncryptedKey; SP certificate list empty or not; RSA or non-RSA private key", "thorough": "same"},
 		Outside: []string{"panics inside etree / encoding/xml / flate / goxmldsig on arbitrary bytes (dependency code)"},
 	})
+	reg(&PropSpec{ID: "C11",
+		Harnesses: []HarnessSpec{
+			{Name: "VH_C11_roundtrip", Replay: "native", Panics: true, Unwind: 80},
+			{Name: "VH_C19_keys", Replay: "native"},
+		},
+		Bounds:  map[string]string{"quick": "every advertised algorithm x {RSA-OAEP-MGF1P, RSA-OAEP 1.1, RSA-1_5} x {no digest, empty, SHA1, SHA256, SHA512} x inline/detached x recipient certificate present/absent; CBC plaintext 0..47 bytes, padding 1..16 bytes with arbitrary filler; all 16 key configurations for the key source", "thorough": "same"},
+		Outside: []string{"AES / RSA / OAEP computations themselves (functional contracts only)", "orchestration twin (encrypted vs plaintext Response): see C07 when built"},
+	})
 }
